@@ -1,6 +1,6 @@
 SPECIFICATION Spec
 CONSTANT AsFound = FALSE
-CONSTANT WithStatic = TRUE
+CONSTANT WithStatic = FALSE
 CONSTRAINT Bound
 INVARIANT C16_NoEmptyWindow
 INVARIANT C16_ListExact
